@@ -72,23 +72,18 @@ def joinWith (sep : Str) : List Str → Str
   | [x] => x
   | x :: y :: rest => x ++ sep ++ joinWith sep (y :: rest)
 
-/-- `s.replace(p, v)` for non-empty `p`: leftmost, non-overlapping.  `fuel` is structural
-    recursion on the text itself (each step consumes at least one code point). -/
-def replaceAll (p v : Str) : Str → Str
-  | [] => []
-  | c :: cs =>
-    if startsWith p (c :: cs) ∧ p ≠ [] then
-      v ++ replaceAll p v ((c :: cs).drop p.length)
-    else c :: replaceAll p v cs
-termination_by s => s.length
-decreasing_by
-  all_goals simp_wf
-  · rename_i h
-    have : 0 < p.length := by
-      cases p with
-      | nil => exact absurd rfl h.2
-      | cons _ _ => simp
-    omega
+/-- loop of `s.replace(p, v)`: `skip` code points of the current match remain to be dropped. -/
+def replaceAux (p v : Str) : Str → Nat → Str
+  | [], _ => []
+  | _ :: cs, skip + 1 => replaceAux p v cs skip
+  | c :: cs, 0 =>
+    if startsWith p (c :: cs) ∧ p ≠ [] then v ++ replaceAux p v cs (p.length - 1)
+    else c :: replaceAux p v cs 0
+
+/-- `s.replace(p, v)` for non-empty `p`: leftmost, non-overlapping, the inserted value is not
+    rescanned.  (For an empty `p` Python inserts `v` between all code points; the code never
+    calls it so: every pattern contains `<` and `>` or is a fixed 6-character escape.) -/
+def replaceAll (p v : Str) (s : Str) : Str := replaceAux p v s 0
 
 /-- `s.split(sep)` on a single code point. -/
 def splitOnChar (sep : Nat) : Str → List Str
